@@ -26,7 +26,7 @@ RULE = ("simulated style-based elections (all / disjoint / nested / random style
         "skipped; distinct = hash of (spec, sizes)")
 REQUIRED = ["contract:CVR.consistent_sampling", "draws_checked", "thresholds_checked", "data_prefix_checked",
             "determinism_checked", "vote_independence_checked", "draws_with_skipped_cards", "sizes:ones", "sizes:all",
-            "sizes:one_exhausted", "sizes:random", "draws_with_phantoms_selected", "cards_listing_no_contest_present", "polling_order_checked", "mismatched_sample_refused"]
+            "sizes:one_exhausted", "sizes:random", "draws_with_phantoms_selected", "cards_listing_no_contest_present", "polling_order_checked", "mismatched_sample_refused", "second_draw_same_contest_objects"]
 ASSUMPTIONS = ["distinct sample numbers; n_c <= number of cards listing c; dict keys equal contest ids; thresholds for "
                "n_c = 0 are unconstrained"]
 N_CASES = {"quick": 19200, "thorough": 200000}
@@ -155,6 +155,7 @@ def run_case(es, rec):
     if any(sim.cvr_list[i].phantom for i in idx):
         rec.count("draws_with_phantoms_selected")
     thresholds = {cid: con.sample_threshold for cid, con in sim.contests.items()}
+    sampled_after_first = [bool(c.sampled) for c in sim.cvr_list]
 
     # ---- follow-up: the data of contest c's assertions are exactly c's n_c reference cards, in reference order -----
     ok, ms = rec.guard("c07.call:prep_comparison_sample", sim.samples, list(idx))
@@ -186,6 +187,20 @@ def run_case(es, rec):
                                    "data": d, "expected": exp, "threshold": con.sample_threshold})
                     return
                 break  # one assertion per contest suffices for the order check
+
+    # ---- a later fresh draw on the SAME Contest objects (sizes re-estimated, often downwards): the contract on
+    #      consistent_sampling checks selection and thresholds again; nothing may be left over from the first draw -----
+    sizes2 = {cid: (max(1, n // 2) if n >= 1 and rng.random() < 0.7 else n) for cid, n in sizes.items()}
+    if sizes2 != sizes:
+        sim.set_sizes(sizes2)
+        ok, _idx2 = rec.guard("c07.call:consistent_sampling", sim.draw)
+        if not ok:
+            return
+        rec.count("second_draw_same_contest_objects")
+        sim.set_sizes(sizes)
+        ok, _idx3 = rec.guard("c07.call:consistent_sampling", sim.draw)
+        if not ok:
+            return
 
     # ---- ordering helpers: both prep_* functions put the sample back into selection order ----------------------------
     order = {sim.cvr_list[i].id: {"selection_order": k, "serial": i + 1} for k, i in enumerate(idx)}
